@@ -340,6 +340,17 @@ class Gen:
         else:  # shapes that do not pair, or overlapping regions of one plate
             rs = self.region(s, rng.choice(['row', 'rect', 'col']))
             rd = self.region(d, rng.choice(['col', 'rect', 'all']))
+            k = min(ps.n_columns, pd.n_rows)
+            if k >= 2 and s != d and rng.random() < 0.5:
+                # the same NUMBER of wells in another arrangement (a 1 x k row into a k x 1 column, or k listed wells into a row of k):
+                # equal sizes do not make equal shapes
+                k = rng.randint(2, k)
+                a, c = rng.randrange(ps.n_rows), rng.randrange(pd.n_columns)
+                rs = {'rect': [[a], list(range(k))]}
+                rd = {'rect': [list(range(k)), [c]]}
+                if rng.random() < 0.4 and pd.n_columns >= k:
+                    rs = {'list': [[a, j] for j in range(k)]}
+                    rd = {'rect': [[rng.randrange(pd.n_rows)], list(range(k))]}
         if rs is None or rd is None:
             return None
         tagx = ''
@@ -524,5 +535,57 @@ def twin_plate_cases(seed, n=3):
             o = g.emit(op, 'twin:pp')
             if o['ok']:
                 p, t = op['osrc'], op['odst']
+        out.append(g)
+    return out
+
+
+def whole_source_cases(seed):
+    """directed: a transfer that takes the WHOLE source -- by volume, by mass, by moles, by activity -- into a destination that
+    already holds the same substances, from a container and from every well of a row; built from short decimals so that the request
+    is the source's total on both sides.  (Random histories keep 3 % away from stock boundaries, so they never draw everything.)"""
+    import random
+    out = []
+
+    def mk(g, init, mx=None):
+        op = {'op': 'newc', 'out': g.fresh(), 'name': g.name(), 'init': init}
+        if mx:
+            op['max'] = mx
+        return op['out'] if g.emit(op, 'whole:newc')['ok'] else None
+
+    def q(v, p, b):
+        return {'v': v, 'p': p, 'b': b}
+    water, dmso, nacl, lipase = 1, 2, 4, 6
+    plans = [
+        # (source contents, destination contents, request = everything in the source)
+        ([(water, q('10', 'm', 'L'))], [(water, q('40', 'm', 'L')), (nacl, q('100', 'm', 'g'))], q('10', 'm', 'L')),
+        ([(water, q('0.5', '', 'mol'))], [(water, q('0.25', '', 'mol')), (dmso, q('2', 'm', 'L'))], q('0.5', '', 'mol')),
+        ([(nacl, q('2', '', 'g'))], [(water, q('5', 'm', 'L')), (nacl, q('1', '', 'g'))], q('2', '', 'g')),
+        ([(lipase, q('20', '', 'U'))], [(water, q('5', 'm', 'L')), (lipase, q('5', '', 'U'))], q('20', '', 'U')),
+        ([(dmso, q('250', 'u', 'L'))], [(dmso, q('750', 'u', 'L'))], q('0.25', 'm', 'L')),
+    ]
+    for i, (src, dst, req) in enumerate(plans):
+        g = Gen(random.Random(seed * 6007 + i), nsubs=9)
+        s, d = mk(g, [[k, v] for k, v in src]), mk(g, [[k, v] for k, v in dst])
+        if s is None or d is None:
+            continue
+        op = {'op': 'transfer', 'src': {'c': s}, 'dst': {'c': d}, 'q': req, 'osrc': g.fresh(), 'odst': g.fresh()}
+        o = g.emit(op, 'boundary:whole-source')
+        if o['ok']:
+            # the drained source and the enriched destination are used again
+            op2 = {'op': 'transfer', 'src': {'c': op['odst']}, 'dst': {'c': op['osrc']}, 'q': q('1', 'm', 'L') if req['b'] != 'U' else q('1', '', 'U'),
+                   'osrc': g.fresh(), 'odst': g.fresh()}
+            g.emit(op2, 'whole:back')
+        out.append(g)
+    # pooling: every well of a row gives everything it holds to a container that already holds the same liquid
+    g = Gen(random.Random(seed * 6007 + 99), nsubs=9)
+    stock = mk(g, [[water, q('5', 'm', 'L')]])
+    pool = mk(g, [[water, q('1', 'm', 'L')]])
+    pl = g.new_plate(rows=2, cols=3, max_ul=500)
+    if None not in (stock, pool, pl):
+        row = {'rect': [[0], [0, 1, 2]]}
+        op = {'op': 'transfer', 'src': {'c': stock}, 'dst': {'p': pl, 'r': row}, 'q': q('200', 'u', 'L'), 'osrc': g.fresh(), 'odst': g.fresh()}
+        if g.emit(op, 'whole:load')['ok']:
+            op2 = {'op': 'transfer', 'src': {'p': op['odst'], 'r': row}, 'dst': {'c': pool}, 'q': q('200', 'u', 'L'), 'osrc': g.fresh(), 'odst': g.fresh()}
+            g.emit(op2, 'boundary:whole-wells')
         out.append(g)
     return out
